@@ -285,6 +285,12 @@ class MetadataTable:
         for entry in self.entries:
             item_id = UUID(bytes_le=entry.item_id)
 
+            if item_id not in self.METADATA_MAP:
+                # Unknown items (e.g. user metadata) can be ignored, unless the file says they are required to read it
+                if entry.is_required:
+                    raise InvalidVirtualDisk(f"Unsupported required metadata item: {item_id}")
+                continue
+
             fh.seek(self.offset + entry.offset)
             value = self.METADATA_MAP[item_id](fh)
             self.lookup[item_id] = value
